@@ -34,7 +34,7 @@ patch = os.path.join(dst, "patch.diff")
 demo = os.path.join(dst, "demo.py")
 wt = tempfile.mkdtemp(prefix="djc-seedverify-")
 os.rmdir(wt)
-meta = {"property": a.prop, "source": "independent sub-agent given only the property text and a scratch worktree",
+meta = {"property": a.prop.rstrip("bc"), "source": "independent sub-agent given only the property text and a scratch worktree",
         "repo_head": subprocess.run(["git", "-C", "/repo", "rev-parse", "HEAD"], capture_output=True, text=True).stdout.strip()}
 
 
@@ -85,7 +85,7 @@ if os.path.exists(os.path.join(dst, "meta.json")):
     prev = old.get("checks_run", {})
     prev.update(results)
     meta["checks_run"] = prev
-    for k in ("needs_to_manifest", "summary"):
+    for k in ("needs_to_manifest", "summary", "comment"):
         if k in old:
             meta[k] = old[k]
 json.dump(meta, open(os.path.join(dst, "meta.json"), "w"), indent=1)
